@@ -291,7 +291,7 @@ def sweep(fx, R):
                   copied = any(('%s.%s' % (pname, fl_)) in v_ or ('arg:%s' % pname) == v_ for v_ in vals)
                   if not copied and fl_ in read:
                       lost.append((fl_, vals[:1]))
-          if lost and any('Opaque' in (l_[1] or [''])[0] for l_ in lost):
+          if lost and any('after the store' in (l_[1] or [''])[0] for l_ in lost):          # the reader's poison for a store it cannot model (an uninterpreted VALUE, e.g. Identity(n, n), is a value)
               R.undecided('H3', inst, 'the user-provided %s writes %s through a form the reader does not model (%s)' % (kind, ', '.join(sorted({l_[0] for l_ in lost})), (lost[0][1] or [''])[0][:80]))
           elif lost and not g.get('copyctor'):
               R.violated('H3', inst, 'the user-provided copy assignment operator does not hand over %s (the target keeps the value it had before the assignment); functions this property reads use that member, so after '
